@@ -171,6 +171,7 @@ pub struct CountCfg {
     pub gb: f64,
     pub acgt: bool,
     pub delete: bool,
+    pub order: u64,
 }
 
 impl CountCfg {
@@ -181,6 +182,7 @@ impl CountCfg {
             gb: pf64(p, "gb"),
             acgt: pbool(p, "acgt"),
             delete: pbool(p, "delete"),
+            order: p.get("order").and_then(|v| v.as_u64()).unwrap_or(0),
         }
     }
     /// ceiling (GB) that makes the per-chunk limit exactly `limit` bases
@@ -213,9 +215,13 @@ pub fn run_counter(
     let c = cfg.clone();
     sim(sched, io, None, abort_at, 4, steps, move || {
         let mut ctr = counter::CountComputer::new(in_path, out_s, c.k);
-        ctr.set_threads(c.threads);
-        ctr.set_max_memory(c.gb);
-        ctr.set_acgt_output(c.acgt);
+        for i in setter_order(3, c.order) {
+            match i {
+                0 => ctr.set_threads(c.threads),
+                1 => ctr.set_max_memory(c.gb),
+                _ => ctr.set_acgt_output(c.acgt),
+            }
+        }
         ctr.count();
         ctr.merge(c.delete);
     })
@@ -444,6 +450,7 @@ pub struct CgrCfg {
     pub memory: usize,
     pub norm: bool,
     pub stdin: bool,
+    pub order: u64,
 }
 
 impl CgrCfg {
@@ -455,6 +462,7 @@ impl CgrCfg {
             memory: pu64(p, "memory") as usize,
             norm: pbool(p, "norm"),
             stdin: pbool(p, "stdin"),
+            order: p.get("order").and_then(|v| v.as_u64()).unwrap_or(0),
         }
     }
 }
@@ -481,14 +489,22 @@ pub fn run_cgr(
     let r = sim(sched, io, stdin, abort_at, 4, steps, move || {
         if c.k == 0 {
             let mut com = composition::cgr::CgrComputer::new(in_path, out_s, c.vecsize);
-            com.set_threads(c.threads);
-            com.set_max_memory(c.memory);
+            for i in setter_order(2, c.order) {
+                match i {
+                    0 => com.set_threads(c.threads),
+                    _ => com.set_max_memory(c.memory),
+                }
+            }
             com.vectorise()
         } else {
             let mut com = composition::oligocgr::OligoCgrComputer::new(in_path, out_s, c.k, c.vecsize);
-            com.set_threads(c.threads);
-            com.set_norm(c.norm);
-            com.set_max_memory(c.memory);
+            for i in setter_order(3, c.order) {
+                match i {
+                    0 => com.set_threads(c.threads),
+                    1 => com.set_norm(c.norm),
+                    _ => com.set_max_memory(c.memory),
+                }
+            }
             com.vectorise()
         }
     });
